@@ -546,7 +546,8 @@ def run(ctx, res):
     orders["dup"] = ["B", "A", "B", "C", "A"]
     res.extra["canonical_orders"] = {k: len(v) for k, v in orders.items()}
     rng = common.rng_for(ctx.seed, "c17-canon")
-    extra = ["ATTENDEE", "X-B", "X-A", "CLASS", "A", "B", "C", "Z", "uid", "Summary", "", "LOCATION", "a"]
+    extra = ["ATTENDEE", "X-B", "X-A", "CLASS", "A", "B", "C", "Z", "uid", "Summary", "", "LOCATION", "a",
+             "X-ITEM-2", "X-ITEM-10", "X-ITEM-01", "X-ITEM-1", "X-7", "X-10", "X-007"]      # digit runs sort as characters
     creqs, cmeta = [], []
     for oname, order in sorted(orders.items()):
         pool = order + extra
